@@ -824,6 +824,7 @@ var errProcessStopped = errors.New("process stopped before launch")
 func (p *Process) setStateAndRun(state string, runnable func() error) error {
 	p.stateMtx.Lock()
 	defer p.stateMtx.Unlock()
+	verifGate(p, "run.launch.locked")
 	// a stop request cancels procRunCtx before it reads the state under stateMtx:
 	// either it sees the launched command, or the launch sees the cancellation
 	if p.procRunCtx.Err() != nil {
